@@ -18,7 +18,7 @@ META = {
         "BaseException failure, SIGINT to the main thread, KeyboardInterrupt raised in an asyncio or thread "
         "payload, shutdown() from an outside thread or a thread payload, MetaRunner.stop()} x populations of "
         "0-6 coroutine payloads per flavour (sleeping, spinning on zero-length sleeps, blocked, waiting on an awaitable nobody else references - with a forced garbage collection before the trigger -, adopted a few "
-        "statements before the trigger, adopted from other payloads, adopted by a payload's own cleanup while the runtime terminates (hand-over chains 1-3 deep), adopted one per loop turn by dispatcher payloads that are still busy at the trigger, services; cleanup none / synchronous 0-30 ms / stubborn (absorbs 1-3 cancellations before giving up) / for asyncio a finally block awaiting 1-5 zero-length steps / "
+        "statements before the trigger, adopted from other payloads, adopted by a payload's own cleanup while the runtime terminates (hand-over chains 1-3 deep), adopted half way through a 0.2-0.5 s shielded trio cleanup, adopted one per loop turn by dispatcher payloads that are still busy at the trigger, services; cleanup none / synchronous 0-30 ms / stubborn (absorbs 1-3 cancellations before giving up) / for asyncio a finally block awaiting 1-5 zero-length steps / "
         "trio-shielded 0-300 ms) x 0-3 blocked thread payloads x trigger time jitter x line-level delay injection. "
         "Non-trivial = at least one coroutine payload was running at the trigger; distinct by scenario shape."
     ),
@@ -111,6 +111,15 @@ def gen_case(rnd, spec):
             if d == 0:
                 p["when"] = "queued"
             gen["payloads"].append(p)
+    # a trio payload whose (long) shielded cleanup hands work over half way through: the runtime is deep in its termination then
+    for m in range(0 if async_mode else rnd.choice([0, 0, 0, 1, 2])):
+        succ = {"id": "late%d" % m, "flavour": rnd.choice(common.FLAVOURS), "cleanup": {"kind": "none"},
+                "program": rnd.choice([[["sleep", 0.01]], [["beat", 0.01, None]]]) if True else None}
+        if succ["flavour"] == "threading":
+            succ["program"] = [["sleep", 0.01]]
+        gen["payloads"].append(succ)
+        gen["payloads"].append({"id": "mid%d" % m, "flavour": "trio", "when": "queued", "program": [["block"]],
+                                "cleanup": {"kind": "shielded", "dur": rnd.choice([0.2, 0.3, 0.5]), "handover_mid": succ["id"]}})
     # dispatchers: payloads that adopt one short-lived worker per loop turn, still busy when the trigger fires
     for d in range(0 if async_mode else rnd.choice([0, 0, 1, 3])):
         fl = rnd.choice(["asyncio", "asyncio", "trio"])
@@ -223,6 +232,8 @@ def judge(case, run, result, suspects_out=None):
                 result.count("private_waiters_cancelled_properly")
             if p.get("cleanup", {}).get("kind") == "shielded":
                 result.count("shielded_cleanups_finished_first")
+                if p["cleanup"].get("handover_mid"):
+                    result.count("shielded_cleanups_that_adopt_half_way_finished_first")
             if p.get("cleanup", {}).get("kind") == "async":
                 result.count("async_cleanups_finished_first")
             if p.get("cleanup", {}).get("kind") == "absorb":
@@ -292,7 +303,7 @@ def run_shard(spec):
 def finish(total, tier):
     need = ["running_coroutine_payloads_judged", "payloads_cancelled_and_cleaned_asyncio", "payloads_cancelled_and_cleaned_trio",
             "shielded_cleanups_finished_first", "terminations_with_blocked_threads", "payloads_adopted_during_termination_started", "scenarios_driving_metarunner_directly", "dispatcher_workers_judged", "private_waiters_cancelled_properly",
-            "async_cleanups_finished_first", "stubborn_payloads_cancelled_until_done_asyncio", "stubborn_payloads_cancelled_until_done_trio"]
+            "async_cleanups_finished_first", "shielded_cleanups_that_adopt_half_way_finished_first", "stubborn_payloads_cancelled_until_done_asyncio", "stubborn_payloads_cancelled_until_done_trio"]
     need += ["trigger_" + t for t in TRIGGERS if not t.startswith("systemexit")]
     for name in need:
         if not total.counters.get(name) and not total.violations:
